@@ -1008,7 +1008,8 @@ class SamplingMethod(DirectMethod):
                     # Error message is usually "... arbitrary expression ..." but can also be
                     # "... You cannot set an initial value for a parameter ..."
                     # if the dynamics contains a parameter
-                    if "arbitrary expression" in str(e) or (not target.is_valid_input() and "initial value for a parameter" in str(e)):
+                    # or "... variables [...] are free ..." if the dynamics depends on neither states nor controls
+                    if "arbitrary expression" in str(e) or (not target.is_valid_input() and ("initial value for a parameter" in str(e) or "are free" in str(e))):
                         pass
                     else:
                         # Other type of error: 
